@@ -189,3 +189,8 @@ class HistParametricModel(ParametricModelBaseMixin, HistContainer):
 
     def fill(self, entries):
         raise TypeError("Parametric model of histogram cannot be filled!")
+
+    def rebin(self, new_bin_edges):
+        super(HistParametricModel, self).rebin(new_bin_edges)
+        self._pm_calculation_stale = True  # bin contents must be evaluated for the new bin edges
+        self._clear_total_error_cache()
